@@ -11,6 +11,8 @@ import (
 
 	crypto "github.com/dappledger/AnnChain/gemmill/go-crypto"
 	wire "github.com/dappledger/AnnChain/gemmill/go-wire"
+	dbm "github.com/dappledger/AnnChain/gemmill/modules/go-db"
+	sm "github.com/dappledger/AnnChain/gemmill/state"
 	"github.com/dappledger/AnnChain/gemmill/types"
 
 	"verifharness/vh"
@@ -95,7 +97,16 @@ func (im *impl) exec(line string) string {
 			return vh.Hex(p.Address)
 		case "total":
 			return fmt.Sprint(im.regs[w[1]].TotalVotingPower())
-		case "reload":
+		case "reload": // the persistence path of a restart: State.Save, LoadState
+			db := dbm.NewMemDB()
+			st := sm.MakeGenesisState(db, &types.GenesisDoc{ChainID: "c16", Validators: []types.GenesisValidator{{PubKey: crypto.GenPrivKeyEd25519FromSecret([]byte("c16")).PubKey(), Amount: 1}}})
+			st.Validators = im.regs[w[1]]
+			st.LastValidators = im.regs[w[1]].Copy()
+			st.Save()
+			vs := sm.LoadState(db).Validators
+			im.regs[w[1]] = vs
+			return dump(vs)
+		case "wirereload": // the bare wire round trip of the set (RPC results)
 			bz := wire.BinaryBytes(im.regs[w[1]])
 			var n int
 			var err error
@@ -221,10 +232,16 @@ func main() {
 					do("reload a")
 					after := do("proposer a")
 					if before != after {
-						fail("proposer-changes-after-persistence-reload", "the proposer of a validator set differs after a wire (persistence) round trip: the cached proposer is not persisted and Proposer() recomputes it from the already-decremented accums", after, before)
+						fail("proposer-changes-after-persistence-reload", "the proposer of a validator set differs after the chain state was saved and loaded again (a restart): the cached proposer is not persisted and Proposer() recomputes it from the already-decremented accums", after, before)
 					}
-					do("reload b") // keep the replicas in the same cache state
+					do("reload b")
 					do("proposer b")
+					if R.Chance(30) { // the bare set round trip drops the caches (both replicas, to stay in step)
+						do("wirereload a")
+						do("proposer a")
+						do("wirereload b")
+						do("proposer b")
+					}
 				}
 			}
 		default: // ---------------------------------------------- membership changes, copies, totals
